@@ -67,6 +67,7 @@ type Contract struct {
 	Afters   []AfterSpec
 	Inline   bool
 	Pure     bool
+	PureRefs bool // `pure refs`: a function of its argument VALUES even when they are references (the referenced objects are immutable)
 	NoPanic  bool
 	Trusted  string
 	Lets     []LetSpec
@@ -225,6 +226,9 @@ func addClause(cf *ContractFile, c *Contract, words []string, text, path string,
 		c.Inline = true
 	case "pure":
 		c.Pure = true
+		if strings.Contains(rest, "refs") {
+			c.PureRefs = true
+		}
 	case "nopanic":
 		c.NoPanic = true
 	case "trusted":
